@@ -1077,7 +1077,9 @@ func (f *Frame) closureSpec(cl *Closure) {
 		pre = append(pre, env.evalBool(r.E))
 	}
 	for _, e := range con.Ensures {
-		post = append(post, env.evalBool(e.E))
+		if !e.BodyOnly {
+			post = append(post, env.evalBool(e.E))
+		}
 	}
 	vc.quantDepth--
 	lo, hi, _ := intRange(p.Type())
